@@ -135,9 +135,11 @@ def run_case(ctx, name, params):
                 nxt = pops[t + 1]
                 nxt_vecs = {tuple(i.vector) for i in nxt}
                 dropped = [i for i in cur if tuple(i.vector) not in nxt_vecs]
+                # for an unconstrained problem every design is equally feasible: the oracle compares objectives only
+                mk = (lambda c: list(c)) if setup["constrained"] else (lambda c: list(c[:-1]) + [0])
                 for s in nxt:
                     for d in dropped:
-                        if oracles.odom(d.costs_signed, s.costs_signed) == 1:
+                        if oracles.odom(mk(d.costs_signed), mk(s.costs_signed)) == 1:
                             ctx.violation("elitism/nsga2/survivor_dominated_by_dropped", "a design of generation %d is dominated by a "
                                           "design of generation %d that was dropped" % (t + 1, t),
                                           wit({"survivor": s.costs_signed, "dropped": d.costs_signed}))
